@@ -879,6 +879,55 @@ func (b *Body) checkVerdictPropagation(l *Ledger, vo, vp, dp *ssa.Function) {
 	} else {
 		l.add("R-DISPATCH", b.Name, key, b.posOf(call), Discharged, "validatePatch(p)'s nil edge dominates the only non-nil-patch return; its non-nil edge returns (nil, err)", true)
 	}
+	// the decode itself must have succeeded: a decoder that reports a type mismatch (a root
+	// that is not an array, an element that is not an object) has left the patch empty or
+	// partly filled, and validatePatch has nothing — or not everything — to look at
+	{
+		key := "DecodePatch: succeeds only after the decoder accepted the text as a whole (err == nil, not merely `no syntax error`)"
+		var dec []*ssa.Call
+		allInstrs(dp, func(i ssa.Instruction) {
+			c, ok := i.(*ssa.Call)
+			if !ok || c == call || len(errResultOf(c)) == 0 {
+				return
+			}
+			// a call that fills the patch variable from the input parameter
+			fromParam, fills := false, false
+			for _, a := range c.Call.Args {
+				if p, _ := paddedOrigin(a, 0); p != nil && p.Parent() == dp {
+					fromParam = true
+				}
+				if mi, ok := a.(*ssa.MakeInterface); ok {
+					a = mi.X
+				}
+				if _, ok := a.(*ssa.Alloc); ok {
+					fills = true
+				}
+			}
+			if fromParam && fills {
+				dec = append(dec, c)
+			}
+		})
+		if len(dec) == 0 {
+			l.add("R-DISPATCH", b.Name, key, b.rel(dp.Pos()), Undecided, "no decode of the input parameter into a local found", false)
+		} else {
+			var probs []string
+			for _, c := range dec {
+				for _, r := range returnsOf(dp) {
+					if isNilConst(r.Results[0]) {
+						continue
+					}
+					if ok, why := b.successDominates(c, r); !ok {
+						probs = append(probs, "the success return at "+b.posOf(r)+" does not lie behind err == nil of the decode at "+b.posOf(c)+" ("+why+"): a text that is well-formed JSON but not an array of objects — {} , \"add\", a lone operation — is accepted as a patch without operations")
+					}
+				}
+			}
+			if len(probs) > 0 {
+				l.add("R-DISPATCH", b.Name, key, b.posOf(dec[0]), Violated, probs[0], true)
+			} else {
+				l.add("R-DISPATCH", b.Name, key, b.posOf(dec[0]), Discharged, "every non-nil-patch return is dominated by the err == nil edge of the decode; its error edge returns (nil, err)", true)
+			}
+		}
+	}
 }
 
 // sameLoadedVar: both values are the same SSA value or loads of the same local variable.
